@@ -122,6 +122,21 @@ class CommandLine(Harness):
     def params(self):
         return {'form': self.form, 'nport': self.nport, 'ipv': self.ipv}
 
+    def ipv_tokens(self):
+        """the argv spelling: '46' means '-4 -6'; a string with blanks or dashes is taken literally ('--ipv6 -4', '-v6 --ipv4', '-64')"""
+        if '-' in self.ipv:
+            return self.ipv.split()
+        return ['-' + ch for ch in self.ipv]
+
+    def ipv_order(self):
+        order = []
+        for tok in self.ipv_tokens():
+            fl = tok[-1] if tok in ('--ipv4', '--ipv6') else ''.join(c for c in tok[1:] if not tok.startswith('--'))
+            for ch in fl:
+                if ch in '46' and ch not in order:
+                    order.append(ch)
+        return order
+
     def inputs(self):
         return {'host': zx.fresh_str('h', 2, HOSTCH), 'pd': sym_port(self.nport) if self.nport else '', 'dp': zx.fresh_int('dp', 1, 65535)}
 
@@ -153,8 +168,9 @@ class CommandLine(Harness):
             vals['host'] = '[fe80::1]:' + pd
             vals['oport'] = inp['dp']
         # the order in which -4/-6 were given (argv order) is what "in the requested order" refers to
-        for ch in self.ipv:
-            args.append('-' + ch)
+        for tok in self.ipv_tokens():
+            args.append(tok)
+        for ch in self.ipv_order():
             vals['ipv' + ch] = True
         args.append('target')
         made = []
@@ -184,7 +200,7 @@ class CommandLine(Harness):
         yield 'accepted-port-is-valid', valid
         yield 'host', obs['host'] == exp_host
         yield 'port', obs['port'] == port
-        want = [int(c) for c in self.ipv]
+        want = [int(c) for c in self.ipv_order()]
         yield 'ip-version-preference-in-the-requested-order', obs['pref'] == want
 
     def classify(self, inp, obs, label):
@@ -369,12 +385,12 @@ class Label(Harness):
     width = 64
     HOSTS = ['example.org', '192.0.2.7', 'fe80::1', '2001:db8:0:0:0:0:0:1']
 
-    def __init__(self, hi, nport):
-        self.hi, self.nport = hi, nport
-        self.name = 'label-%d-p%d' % (hi, nport)
+    def __init__(self, hi, nport, level='info'):
+        self.hi, self.nport, self.level = hi, nport, level
+        self.name = 'label-%d-p%d%s' % (hi, nport, '' if level == 'info' else '-l' + level)
 
     def params(self):
-        return {'hi': self.hi, 'nport': self.nport}
+        return {'hi': self.hi, 'nport': self.nport, 'level': self.level}
 
     def inputs(self):
         pd = zx.fresh_str('pd', self.nport, DIG)
@@ -390,8 +406,9 @@ class Label(Harness):
             return {'skip': True}
         host = self.HOSTS[self.hi]
         L = {c: ['x'] for c in OL.CATS}
-        t = OL.run_output(M, L, print_target=True, host=host, port=port)
-        j = OL.run_output(M, L, json=True, host=host, port=port)
+        # the label is part of every block whatever the minimum level (-l warn / -l fail hide informational lines, not the name of the target)
+        t = OL.run_output(M, L, print_target=True, host=host, port=port, level=self.level)
+        j = OL.run_output(M, L, json=True, host=host, port=port, level=self.level)
         if isinstance(t['ret'], Exc) or isinstance(j['ret'], Exc):
             return {'exc': t['ret'] if isinstance(t['ret'], Exc) else j['ret']}
         tl = [ln for ln in t['lines'] if OL._starts(ln, '(gen) target: ')]
@@ -415,6 +432,76 @@ class Label(Harness):
             ok = s_or(s_and(is22, tl[0] == '(gen) target: ' + host), s_and(s_not(is22), tl[0] == '(gen) target: ' + with_port))
         yield 'text-label', ok
         yield 'json-target', obs['json'] == host + ':' + pd
+
+
+class PolicyLabel(Harness):
+    """policy report (evaluate_policy, server audit): the 'Host:' line denotes the same (host, port), at every minimum level, for passing and failing targets;
+    JSON carries host and port."""
+    prop, ob = PROP, 'O4'
+    width = 64
+
+    def __init__(self, hi, nport, level, passing):
+        self.hi, self.nport, self.level, self.passing = hi, nport, level, passing
+        self.name = 'policylabel-%d-p%d-l%s-%s' % (hi, nport, level, 'pass' if passing else 'fail')
+
+    def params(self):
+        return {'hi': self.hi, 'nport': self.nport, 'level': self.level, 'passing': self.passing}
+
+    def inputs(self):
+        pd = zx.fresh_str('pd', self.nport, DIG)
+        if self.nport > 1:
+            zx.cur().assume(s_not(pd.startswith('0')))
+        return {'pd': pd}
+
+    def run(self, M, inp):
+        from props.c06 import make_policy, make_kex
+        port = z_int(inp['pd'])
+        if zx.active():
+            zx.cur().assume(s_and(port >= 1, port <= 65535))
+        elif not 1 <= port <= 65535:
+            return {'skip': True}
+        host = Label.HOSTS[self.hi]
+        res = {}
+        for js in (False, True):
+            OL.fresh_tables(M)
+            aconf = M.auditconf.AuditConf(host, port)
+            aconf.json = js
+            aconf.policy = make_policy(M, {'_kex': ['k'] if self.passing else ['other']}, False, False)
+            out = M.outputbuffer.OutputBuffer()
+            out.use_colors = False
+            out.level = self.level
+            kex = make_kex(M, {'kex': ['k']})
+            cj = OL.CaptureJson()
+            with AE.patched(M.ssh_audit, json=cj):
+                r = guarded(M.ssh_audit.evaluate_policy, out, aconf, M.banner.Banner((2, 0), 'OpenSSH_8.0', None, True), None, kex)
+            if isinstance(r, Exc):
+                return {'exc': r}
+            if js:
+                d = cj.docs[-1][0] if cj.docs else {}
+                res['json'] = (d.get('host'), d.get('port'))
+            else:
+                res['text'] = [ln for ln in list(out.buffer) + list(out.section) if OL._starts(ln, 'Host:')]
+                res['passed'] = r
+        return res
+
+    def check(self, inp, obs):
+        if 'skip' in obs:
+            return
+        if 'exc' in obs:
+            yield 'no-exception', False
+            return
+        host, pd = Label.HOSTS[self.hi], inp['pd']
+        port = z_int(pd)
+        with_port = ('[' + host + ']:' + pd) if ':' in host else (host + ':' + pd)
+        tl = obs['text']
+        ok = len(tl) == 1
+        if ok:
+            is22 = port == 22
+            got = tl[0][5:].lstrip(' ')
+            ok = s_or(s_and(is22, got == host), s_and(s_not(is22), got == with_port))
+        yield 'policy-report-names-its-target', ok
+        yield 'policy-json-host-and-port', obs['json'][0] == host and obs['json'][1] == port
+        yield 'verdict-as-constructed', obs['passed'] == self.passing
 
 
 def ssh1_pkm_packet():
@@ -623,7 +710,7 @@ def tasks(tier):
     for form in ('host:port', 'host -p', '[v6]:port', 'v6 -p', '[v6] -p', 'host:port -p', '[v6]:port -p'):
         for np_ in ((1, 4, 5, 6) if q else (1, 2, 3, 4, 5, 6)):
             T.append(CommandLine(form, np_))
-    for ipv in ('', '4', '6', '46', '64'):
+    for ipv in ('', '4', '6', '46', '64', '-46', '-64', '--ipv4', '--ipv6', '--ipv6 --ipv4', '--ipv4 --ipv6', '--ipv6 -4', '--ipv4 -6', '-6 --ipv4', '-4 --ipv6', '-v6 -4', '-6n4'):
         T.append(CommandLine('host', 0, ipv))
     for shape in ([('host',), ('host:port', 'blank', 'host'), ('padded', 'host'), ('blank', 'host:port'), ('host', 'last-no-newline'), ('spaces', 'host')] if q else
                   [('host',), ('host:port', 'blank', 'host'), ('padded', 'host'), ('blank', 'host:port'), ('host', 'last-no-newline'), ('spaces', 'host'),
@@ -642,6 +729,11 @@ def tasks(tier):
     for hi in range(4):
         for np_ in ((2, 5) if q else (1, 2, 3, 4, 5)):
             T.append(Label(hi, np_))
+        for level in ('warn', 'fail'):
+            T.append(Label(hi, 2 if hi % 2 else 4, level))
+        for level in (('info', 'fail') if q else ('info', 'warn', 'fail')):
+            for passing in (True, False):
+                T.append(PolicyLabel(hi, 2 if hi % 2 else 4, level, passing))
     for shape in ([('cmd-host',), ('cmd-host:port',), ('host:port', 'host'), ('host', 'host:port'), ('padded', 'blank', 'host')] if q else
                   [('cmd-host',), ('cmd-host:port',), ('host:port', 'host'), ('host', 'host:port'), ('padded', 'blank', 'host'),
                    ('host:port', 'host:port', 'host'), ('host', 'host', 'host:port'), ('host:port', 'blank', 'host', 'host'), ('padded', 'host', 'padded', 'host'),
@@ -675,7 +767,9 @@ def harness_by_name(name, params):
     if k == 'resolve':
         return Resolve(p['pref'], p['nans'], p.get('host', 'example'))
     if k == 'label':
-        return Label(p['hi'], p['nport'])
+        return Label(p['hi'], p['nport'], p.get('level', 'info'))
+    if k == 'policylabel':
+        return PolicyLabel(p['hi'], p['nport'], p['level'], p['passing'])
     if k == 'fallbacklabel':
         return FallbackLabel(p['nport'])
     if k == 'mainrun':
